@@ -622,7 +622,25 @@ def fam_matmul_large(rng, n, tier, mode="exact"):
     return cases
 
 
-FAMILIES_LATE = {"conv_large": fam_conv_large, "matmul_large": fam_matmul_large}
+def fam_bigpasses(rng, n, tier, mode="float"):
+    """long buffers (2^10 .. 2^13 elements) under several passes and several consumers: every element map
+    differentiated twice with different seeds (nothing kept between passes), a long array with a plain and a
+    broadcasting consumer (contributions reduced before they are added)"""
+    cases = []
+    maps = (["sigmoid", "exp", "powf", "recip"] if tier != "thorough" else ["sigmoid", "exp", "relu", "recip", "ln", "powf", "neg", "scale"]) if mode != "exact" else ["relu", "neg", "scale", "powf"]
+    for m in maps:
+        for ln_ in ((1024,) if tier != "thorough" else (1024, 1100)):
+            arg = {"scale": " " + sc(3, mode), "powf": " " + sc(2, mode)}.get(m, "")
+            vals = posfloats(rng, ln_, 0.5, 2.0) if mode != "exact" else [rng.randint(1, 3) for _ in range(ln_)]
+            sd = lambda: (floats(rng, ln_, -2, 2) if mode != "exact" else [rng.randint(-3, 3) for _ in range(ln_)])
+            L = ["new a %d %s" % (ln_, vals_s(vals, mode)), "tracked a", "%s s a%s" % (m, arg),
+                 "new s1 %d %s" % (ln_, vals_s(sd(), mode)), "backward s s1", "grad a", "cleargrad a",
+                 "new s2 %d %s" % (ln_, vals_s(sd(), mode)), "backward s s2", "grad a", "backward s -", "grad a"]
+            cases.append(Case(L, ("bigmap", m, ln_), ["long", m, "two-passes"], mode))
+    return cases
+
+
+FAMILIES_LATE = {"conv_large": fam_conv_large, "matmul_large": fam_matmul_large, "bigpasses": fam_bigpasses}
 
 # ---------------------------------------------------------------- family: reduce-map (C07)
 
@@ -1339,7 +1357,7 @@ def fam_optim(rng, n, tier, mode="exact", frompass=True):
                     L.append("new %s %s %s" % (g, dims_s(s), vals_s(gen_vals(rng, prod(s), mode), mode)))
                     L.append("setgrad %s %s" % (nm, g))
             L.append("clone old %s" % names[0])
-            lr = rng.choice([1, 2, Fraction(1, 2), Fraction(1, 4), -1]) if mode == "exact" else rng.uniform(0.001, 1.0)
+            lr = rng.choice([1, 2, Fraction(1, 2), Fraction(1, 4), -1, 0]) if mode == "exact" else rng.choice([rng.uniform(0.001, 1.0), rng.uniform(0.001, 1.0), 0.0])
             if rep == 0:
                 reuse = rng.random() < 0.6
                 if reuse:
@@ -1375,6 +1393,16 @@ def fam_optim(rng, n, tier, mode="exact", frompass=True):
                     L.append("gdstep G %s" % ",".join(names))
                     L.append("snapshot")
             cases.append(Case(L, ("optshared", k, sameshape, tuple(map(tuple, shapes))), ["shared-optimizer"], mode))
+    # a learning rate of zero is a step like any other: gradients taken, fresh tracked leaves, values unchanged
+    for k in (1, 2):
+        L = []
+        names = ["p%d" % i for i in range(k)]
+        for nm in names:
+            L += ["new %s 2 %s" % (nm, vals_s(gen_vals(rng, 2, mode), mode)), "tracked %s" % nm,
+                  "new g%s 2 %s" % (nm, vals_s(gen_vals(rng, 2, mode), mode)), "setgrad %s g%s" % (nm, nm)]
+        L += ["clone old p0", "gdupdate %s %s" % (sc(0, mode), ",".join(names)), "snapshot"] + ["probe %s" % nm for nm in names] + ["grad old", "probe old"]
+        L += ["gd G %s" % sc(0, mode)] + ["setgrad %s g%s" % (nm, nm) for nm in names] + ["gdstep G %s" % ",".join(names), "snapshot"]
+        cases.append(Case(L, ("optzero", k), ["lr-zero"], mode))
     # long parameter lists / long parameters: the flat gather / step / scatter at totals from 2^10 to beyond 2^17
     for sizes in ([600, 500], [5000, 3, 4000], [40000, 30000, 7], [70000, 65000, 5], [3, 131072, 2], [50000, 50000, 50000]):
         L = []
@@ -2231,6 +2259,24 @@ def fam_alias(rng, n, tier, mode="exact"):
                 L += ["gdupdate %s p" % lr, "show p"] + (["show v"] if when != "none" else [])
                 L += ["gdupdate %s p" % lr, "show p"] + (["show v"] if when != "none" else [])
                 cases.append(Case(L, ("paramview", when, src, tuple(dims)), ["update", when], mode))
+    # the activation closures (what layers call) applied to a view / a clone / the array itself, untracked or tracked:
+    # the argument's buffer is never written
+    if mode != "exact" or True:
+        for kind in (["relu"] if mode == "exact" else ["relu", "sigmoid", "softmax"]):
+            for how in ("view", "clone", "self", "view-of-view"):
+                for trk in (False, True):
+                    L = ["new a 2,2 %s" % vals_s([1, -2, 3, -4] if mode == "exact" else [0.5, -1.5, 2.0, -0.25], mode)]
+                    if trk:
+                        L.append("tracked a")
+                    arg = "a"
+                    if how == "view":
+                        L.append("reshape v a 4"); arg = "v"
+                    elif how == "clone":
+                        L.append("clone v a"); arg = "v"
+                    elif how == "view-of-view":
+                        L += ["reshape u a 1,4", "reshape v u 4,1"]; arg = "v"
+                    L += ["act r %s %s" % (kind, arg), "show a", "act r2 %s %s" % (kind, arg), "show a", "%s m %s" % (kind, arg), "show a"]
+                    cases.append(Case(L, ("actalias", kind, how, trk), ["activation-closure", how], mode))
     for i in range(n):
         p = Prog(rng, mode)
         leaves = [p.new_leaf(tracked=True) for _ in range(rng.randint(1, 3))]
@@ -2411,6 +2457,14 @@ def fam_cost(rng, n, tier, mode="exact"):
                  "new t %s %s" % (dims_s(s), vals_s(gen_vals(rng, prod(s), mode), mode)),
                  "cost c %s o t" % cost, "sumall c", "backward c -", "grad o"]
             cases.append(Case(L, ("cost", cost, tuple(s)), [cost, "rank%d" % len(s)], mode))
+    # target and output of different (broadcast-compatible) shapes: the divisor is the OUTPUT's element count (mse) /
+    # leading dimension (cross-entropy), whatever the target's shape
+    for (od, td) in (([4, 2], [2]), ([4, 2], [1, 2]), ([2], [4, 2]), ([1, 2], [4, 2]), ([2, 2, 2], [2]), ([2, 1, 2], [2, 2, 2]), ([4], [1])):
+        for cost in (["mse"] if mode == "exact" else ["mse", "xent"]):
+            L = ["new o %s %s" % (dims_s(od), vals_s(gen_vals(rng, prod(od), mode, "pos"), mode)), "tracked o",
+                 "new t %s %s" % (dims_s(td), vals_s(gen_vals(rng, prod(td), mode), mode)),
+                 "cost c %s o t" % cost, "sumall c", "backward c -", "grad o"]
+            cases.append(Case(L, ("costbc", cost, tuple(od), tuple(td)), [cost, "broadcast-target"], mode))
     # one cost closure applied to a sequence of outputs of different sizes (the harness keeps one closure
     # per kind for the whole case): every call normalises by its own argument's size
     seqs = [[[4, 2], [2, 2], [4, 2]], [[2], [1, 2], [4, 2]], [[2, 2, 2], [2], [1, 2, 2]], [[1, 4], [4, 4], [2, 4]]]
@@ -2484,6 +2538,14 @@ def fam_scalar_edges(rng, n, tier, mode="float", part="all"):
                     v = rowsv if order == 0 else rowsv[2:] + rowsv[:2]
                     L = ["new z %s %s" % (dims_s(dims), vals_s(v, mode)), "softmax p z", "sum q p 1"]
                     cases.append(Case(L, ("edgesmb", hi, lo, tuple(dims), order), ["softmax", "batch", "edge"], mode))
+    for e in (3e9, 2.0 ** 32, 2.0 ** 33 + 2.0, -3e9, 2.0 ** 31 + 2.0, 2147483649.0):
+        for base in ([1.0 + 1e-9, 1.0 - 1e-9], [-(1.0 + 1e-9), -1.0], [1.0 + 2e-10, 1.0]):
+            if mode != "float":
+                continue
+            cases.append(Case(["new a 2 %s" % vals_s(base, mode), "tracked a", "powf r a %s" % sc(e, mode), "backward r -", "grad a"],
+                              ("edgepowg", e, tuple(base)), ["powf", "exponent", "gradient"], mode))
+    if part == "maps":
+        cases = [c for c in cases if not ({"cost", "xent", "add", "sub", "mul", "div"} & set(c.tags))]
     if part == "cost":
         cases = [c for c in cases if "cost" in c.tags or "xent" in c.tags]
     elif part == "softmax":
